@@ -27,6 +27,10 @@ func Main(args []string) int {
 	switch args[0] {
 	case "monitor-replay":
 		return monitorReplay(*scripts, *out, *from, *to)
+	case "watchdog-replay":
+		return watchdogReplay(*scripts, *out)
+	case "watchdog-free":
+		return watchdogFree(*out, *seed, *runs)
 	case "balance-replay":
 		return balanceReplay(*scripts, *out)
 	case "balance-free":
